@@ -18,7 +18,7 @@ const tfAck = 0x1000
 
 type c11Case struct {
 	Followers int      `json:"f"`
-	Mode      uint     `json:"m"` // 0 all (mixed), 1 majority, 2 all
+	Mode      uint     `json:"m"`     // 0 all (mixed), 1 majority, 2 all
 	Fates     []string `json:"fates"` // per follower: deliver | held | late | cut
 	Interf    string   `json:"i"`     // none | duplicate | unlock | waiter-behind | demote
 	Value     bool     `json:"v"`
@@ -78,7 +78,9 @@ func evalC11(c *Ctx, cs EnumCase) EnumResult {
 		return EnumResult{Err: err.Error()}
 	}
 	var vs []explore.Violation
-	add := func(sig, msg string) { vs = append(vs, explore.Violation{Sig: "C11:" + sig, Msg: k.name() + ": " + msg}) }
+	add := func(sig, msg string) {
+		vs = append(vs, explore.Violation{Sig: "C11:" + sig, Msg: k.name() + ": " + msg})
+	}
 	var engErr, obs string
 	rt := vrt.Run(vrt.Options{MaxPoints: 400_000_000}, func() {
 		cl, err := StartLeaderFollowers(k.Followers, func(i int, cfg *hapi.Config) { cfg.AckMode = k.Mode })
